@@ -44,6 +44,16 @@ func runStep(m, rl, wl, p, pc int, pre []ins) (res stepResult) {
 		res.pan = "spawn: " + err.Error()
 		return
 	}
+	if (m+rl+2*wl+pc)%4 == 0 {
+		// a simulator that has been used before: one cycle, Reset, the same warrior spawned again.  The recorded step
+		// must not depend on it (limits, core and queue are those of a fresh simulator)
+		sim.RunCycle()
+		sim.Reset()
+		if err := sim.SpawnWarrior(0, 0); err != nil {
+			res.pan = "spawn after reset: " + err.Error()
+			return
+		}
+	}
 	sim.RunCycle()
 	res.post = make([]ins, m)
 	for i := 0; i < m; i++ {
